@@ -294,7 +294,7 @@ def recording(rec):
         R.insert, R.delete = real_insert, real_delete
 
 
-def make_patch(asm, constraints=None):
+def make_patch(asm, constraints=None, get_asm=None):
     from gtirb_rewriting import Constraints, Patch
 
     c = constraints or Constraints()
@@ -304,18 +304,27 @@ def make_patch(asm, constraints=None):
             super().__init__(c)
 
         def get_asm(self, ctx, *regs):
+            if get_asm is not None:
+                return get_asm(ctx, *regs)
             return asm
 
     return P()
 
 
-def register_edits(B, ctx, edits):
+def register_edits(B, ctx, edits, asm_hook=None):
+    """asm_hook(asm) -> replacement for Patch.get_asm (fault injection, instrumentation)"""
+
+    def mk(e):
+        if "asm" not in e:
+            return bytes(e["bytes"])
+        return make_patch(e["asm"], get_asm=asm_hook(e["asm"]) if asm_hook else None)
+
     for e in edits:
         blk = B.blocks[e["block"]]
         if e["op"] == "insert":
-            ctx.insert_at(blk, e["off"], make_patch(e["asm"]) if "asm" in e else bytes(e["bytes"]))
+            ctx.insert_at(blk, e["off"], mk(e))
         elif e["op"] == "replace":
-            ctx.replace_at(blk, e["off"], e["len"], make_patch(e["asm"]) if "asm" in e else bytes(e["bytes"]))
+            ctx.replace_at(blk, e["off"], e["len"], mk(e))
         elif e["op"] == "delete":
             ctx.delete_at(blk, e["off"], e["len"], retarget_to_proxy=bool(e.get("proxy", False)))
         else:
